@@ -2,12 +2,12 @@ SPECIFICATION Spec
 CONSTANTS
   N = 3
   MaxSteps = 2
-  K = 0
+  K = 1
   M = 0
-  Roots = 3
-  NatSteps = 3
-  Kinds = {"pa", "qo", "qd", "qa"}
-  NatKinds = {"sd", "qd"}
+  Roots = 2
+  NatSteps = 2
+  Kinds = {"pa", "rd", "ra", "aw", "sd", "sa", "sc"}
+  NatKinds = {"sd"}
   Prune = TRUE
 INVARIANTS TypeOK CoroMode RunToSuspension QueueFIFO ObservedOrder ResumeOncePerReadying NoReentrancy RoundRobin FullDrain AllDoneAtEnd
 PROPERTY FIFOStep
